@@ -11,7 +11,7 @@ EXTENDS Vt, FiniteSets
 (* conformance failure in a step is a violation only for an owner.             *)
 DecModeOwner(m) ==
   CASE m = 6 -> {"C05"} [] m = 7 -> {"C04"} [] m = 1047 -> {"C16"} [] m = 1048 -> {"C17"}
-    [] m = 1049 -> {"C16", "C17"} [] OTHER -> {"C19"}
+    [] m = 1049 -> {"C16", "C17"} [] OTHER -> {}          \* cursor visibility, cursor-key mode, ...: no statement says what setting them does
 Owner(fn) ==
   LET f == fn.f IN
   CASE f \in {"Print", "Rep", "So", "Si", "Gzd4", "G1d4"} -> {"C04"}
@@ -23,9 +23,10 @@ Owner(fn) ==
     [] f \in {"Ed", "El", "Ech", "Ich", "Dch", "Decaln"} -> {"C07"}
     [] f = "Sgr" -> {"C08"}
     [] f \in {"Hts", "Ctc", "Tbc"} -> {"C18"}
-    [] f \in {"Decsc", "Decrc", "Scosc", "Scorc", "Decstr"} -> {"C17"}
+    [] f \in {"Decsc", "Decrc", "Scosc", "Scorc"} -> {"C17"}
+    [] f = "Decstr" -> {}                                     \* no statement says what a soft reset resets; what it does to the saved context is judged by C17's restore predicate
     [] f = "Ris" -> {"C19"}
-    [] f \in {"Sm", "Rm"} -> {"C04", "C05"}
+    [] f \in {"Sm", "Rm"} -> IF \E i \in 1..Len(fn.a) : fn.a[i] = 4 THEN {"C04"} ELSE {}     \* insert mode is C04's; new-line mode is nobody's
     [] f \in {"Decset", "Decrst"} -> UNION {DecModeOwner(fn.a[i]) : i \in 1..Len(fn.a)}
     [] OTHER -> {"C20"}
 Owners(fns) == UNION {Owner(fns[i]) : i \in 1..Len(fns)}
